@@ -5,7 +5,7 @@ built through the public constructors, encoded by the real writer, decoded by th
 under every allocator poison, and compared field by field (public attributes, bit-for-bit at
 on-disk width, gap positions) with the spec; the decoded block must re-encode to the same
 bytes."""
-from .. import core, editwalk, env, shape, specs
+from .. import core, editwalk, env, gen, shape, specs
 from .. import tdfref as R
 
 PROP = "C01"
@@ -57,13 +57,77 @@ def check_one(sp, opts, acc, tag=""):
     return "roundtrip"
 
 
+def shared_items_shard(t):
+    """One item object as a member of TWO blocks (other channel / other position / other header in the
+    second one): each block must still round-trip to its own content."""
+    import copy
+
+    acc = core.Acc()
+    n = 3
+    if t in gen.RLE_TYPES:
+        a = gen.rle_block(t, n, [(True, False, True), (True, True, True)], chans=[1, 5])
+    elif t == R.T_PLATCAL:
+        a = gen.platcal([(1, gen.mk_platinfo("p", 1)), (5, gen.mk_platinfo("q", 2))])
+    elif t == R.T_EVENTS:
+        a = gen.events([gen.mk_event("a", 1, 2), gen.mk_event("b", 0, 1, 3)])
+    elif t == R.T_OPT:
+        a = gen.optical([gen.mk_chan(0), gen.mk_chan(1)])
+    else:
+        return acc
+    k = next(k for k in ("tracks", "items", "channels", "events") if k in a)
+    b = copy.deepcopy(a)
+    b[k] = list(reversed(b[k]))
+    if k == "items":
+        b[k] = [(c + 20, it) for c, it in b[k]]          # the same items on other channels
+    if "frequency" in b:
+        b["frequency"] = a["frequency"] + 7
+    acc.n["states"] += 1
+    acc.n["evaluations"] += 1
+    acc.n["nontrivial"] += 1
+    wit = {"shared_items": t}
+    try:
+        oa = specs.build(a)
+        items = list(reversed(editwalk.lib_items(oa, t)))
+        ob = specs.build({**b, k: []})
+        for (entry, it) in zip(b[k], items):
+            if t in (R.T_DATA3D, R.T_FORCE3D):
+                ob.add_track(it)
+            elif t == R.T_EMG:
+                ob.addSignal(it, channel=entry[0])
+            elif t in (R.T_PLATDATA, R.T_PLATCAL):
+                ob.add_platform(it, entry[0])
+            elif t == R.T_EVENTS:
+                ob.events.append(it)
+            else:
+                ob.channels.append(it)
+        acc.n["transitions"] += 4
+        for name, obj, sp in (("first block", oa, a), ("second block", ob, b), ("first block again", oa, a)):
+            data = specs.lib_encode(obj)
+            got = specs.extract(specs.lib_decode(t, sp["format"], data)[0])
+            df = specs.diff(sp, got)
+            if df:
+                acc.violation("field-differs", f"{PROP}:{R.NAMES[t]}:field-differs:shared-items:{df.split(':')[0].split('[')[0]}", wit,
+                              f"{R.NAMES[t]}: the {name}, whose item objects are also members of another block, decodes differently: {df}")
+                break
+        else:
+            acc.outcomes[f"{R.NAMES[t]}:shared-items:roundtrip"] += 1
+            acc.n["traces"] += 1
+    except Exception as e:  # noqa: BLE001
+        acc.violation("valid-block-refused", f"{PROP}:{R.NAMES[t]}:valid-block-refused:shared-items:{type(e).__name__}", wit,
+                      f"{R.NAMES[t]} with item objects shared by two blocks: {type(e).__name__}: {e}")
+    acc.sample({"shared items": f"{R.NAMES[t]}: two blocks holding the same item objects (other channels / order / header)"}, 1)
+    return acc
+
+
 def _shard(shard):
+    if shard[0] == "shared":
+        return shared_items_shard(shard[1])
     return shape.run_shard(shard, _shard.tier, check_one, PROP)
 
 
 def run(tier):
     _shard.tier = tier
-    acc = core.pmap(__name__, "_shard", shape.shards())
+    acc = core.pmap(__name__, "_shard", [("shared", t) for t in R.WRITABLE] + shape.shards())
     acc.merge(core.pmap("mc.editwalk", "run_shard", editwalk.shards(PROP, tier)))
     return acc
 
@@ -71,6 +135,9 @@ def run(tier):
 def replay(w):
     if w.get("editwalk"):
         return editwalk.replay(w)
+    if "shared_items" in w:
+        acc = shared_items_shard(w["shared_items"])
+        return core.Violation(acc.violations[0]["clause"], acc.violations[0]["sig"], w, acc.violations[0]["detail"]) if acc.violations else None
     return shape.replay(w, check_one)
 
 
